@@ -12,12 +12,29 @@ Two systems (DESIGN §4 C10):
   same set and equals sum|a-b|/(a+b)/|D| recomputed from D, the memberships and the adjacency.
 * ``NNDVI`` -- the detector in lock-step with models.nnsp.NNDVIModel over all batch sequences
   from a menu of 4 after ``set_reference``; same-seed permutation threshold (DESIGN §2.3).
+
+Round-3 families (EXTENDING.md; every one is a set of *additional* tasks whose label names it):
+
+* NNSP: integer-typed samples, integer sample vs. float64 sample (shared integral points, float
+  points that truncate onto integer points), float32 samples alone and against float64 samples
+  (decimals that are not float32 numbers), integer lattices in 1-D / 2-D with k up to 4 (many
+  exact distance ties; unions of 6 points so that sklearn's tree search is reached), 3-D points,
+  and points at level 1e6 with a spread of a few units (kNN judged with the absolute error a
+  correct float implementation commits on squared distances at that level).
+* NNDVI: the same value families as batches (int64 / float32 / DataFrame incl. integer, float32
+  and mixed-dtype frames with unsorted labels and a non-default index, containers and dtypes
+  mixed across one history), lattice batches whose pooled kNN relation is not unique (the
+  decision must be the one some valid relation yields), 3-D, level 1e6, sampling_times 1-3,
+  alpha 1e-6 / 0.999, a batch equal to the reference as a set (other multiplicities and row
+  order), ``set_reference`` called by the user mid-history and right after a drift, and
+  ``NNDVIx``: several detectors with different parameters interleaved call by call.
 """
 import itertools
 import math
 import time
 
 import numpy as np
+import pandas as pd
 
 from menelaus.data_drift import NNDVI
 from menelaus.partitioners import NNSpacePartitioner
@@ -38,6 +55,46 @@ POINT_MENU = {
     #      equidistant from (1,0) and (1,1)
     "2d": [[0.0, 0.0], [1.0, 0.0], [0.0, 1.0], [1.0, 1.0], [3.0, 0.5]],
 }
+# ---- round 3 menus
+POINT_MENU.update({
+    # integer-valued versions (int64 samples); "2d-half" is the float64 partner: shares the
+    # integral points (0,0), (1,0) and holds points that truncate onto integer menu points
+    "2d-int": [[0, 0], [1, 0], [0, 1], [1, 1], [3, 1]],
+    "2d-half": [[0, 0], [1, 0], [0.5, 1], [1, 1.5], [3, 0.5]],
+    # integer lattices: equally spaced points, every interior point has tied neighbours
+    "1d-lat": [[0], [1], [2], [3], [4]],
+    "2d-lat": [[0, 0], [1, 0], [2, 0], [0, 1], [1, 1], [2, 1]],
+    # decimals that are not float32 (nor float64) numbers; "2d-dec64" is the float64 partner of a
+    # float32 sample: shares the dyadic points (0.5,0.25), (1.5,0.25) exactly, its other points are
+    # far from every float32 point (no pair of points closer than 0.4: a pair at distance ~1e-9 --
+    # the same decimal in both precisions -- would not be resolvable by any float kNN search)
+    "2d-dec": [[0.5, 0.25], [1.5, 0.25], [0.1, 1.3], [1.1, 1.7], [3.3, 0.7]],
+    "2d-dec64": [[0.5, 0.25], [1.5, 0.25], [0.6, 1.9], [2.3, 1.2], [3.9, 1.4]],
+    # 3-D: unit-square face + points off the plane, ties for k = 2, 3
+    "3d": [[0, 0, 0], [1, 0, 0], [0, 1, 0], [1, 1, 1], [3, 0.5, 2]],
+    # level 1e6, spread of a few units, decimals (so that a float32 round trip moves every point)
+    "2d-big": [[1e6 + 0.0, 1e6 + 0.0], [1e6 + 1.1, 1e6 + 0.3], [1e6 + 2.7, 1e6 + 2.2],
+               [1e6 + 0.4, 1e6 + 3.9], [1e6 + 7.9, 1e6 + 5.3]],
+    "1d-big": [[1e6], [1e6 + 1.1], [1e6 + 2.7], [1e6 + 5.2], [1e6 + 9.9]],
+})
+# Absolute error allowed on a squared distance at level 1e6 in <= 2-D: a correct implementation may
+# evaluate |x-y|^2 as |x|^2 + |y|^2 - 2xy (sklearn's brute-force search does), whose rounding error is
+# a few ulp of |x|^2 ~ 2e12, i.e. ~ 1e-3; 64 * eps * 2e12 = 0.03 bounds it with a margin.  The menus
+# are chosen so that competing squared distances differ by > 0.3 (checked when the tasks are built),
+# so the tolerance never decides anything on these menus -- it only keeps the oracle honest.
+BIG_TOL = 64 * 2.220446049250313e-16 * 2e12
+# (menu of sample 1, menu of sample 2 or None, form, sizes, ks, knn tolerance, family)
+NNSP_FAMILIES = [
+    ("2d-int", None, "i64", (1, 2, 3), (1, 2, 3), 0, "int"),
+    ("2d-int", "2d-half", "i64/f64", (1, 2, 3), (2, 3), 0, "int-vs-float"),
+    ("2d-dec", None, "f32", (1, 2, 3), (2,), 0, "float32"),
+    ("2d-dec", "2d-dec64", "f32/f64", (1, 2, 3), (2,), 0, "float32-vs-float64"),
+    ("1d-lat", None, "i64", (1, 2, 3), (2, 3), 0, "lattice"),
+    ("2d-lat", None, "i64", (1, 2, 3), (2, 4), 0, "lattice"),
+    ("3d", None, "f64", (1, 2, 3), (2, 3), 0, "3d"),
+    ("2d-big", None, "f64", (1, 2, 3), (2, 3), BIG_TOL, "level1e6"),
+    ("1d-big", None, "f64", (1, 2, 3), (2,), BIG_TOL, "level1e6"),
+]
 SIZES = (1, 2, 3, 4)
 KS = (1, 2, 3)
 ROW_ORDERS = {"quick": ("asc",), "thorough": ("asc", "desc-asc")}
@@ -49,6 +106,26 @@ def _rows(menu, idx, order):
     if order == "desc":
         idx = idx[::-1]
     return [list(POINT_MENU[menu][i]) for i in idx]
+
+
+_NP_DTYPE = {"f64": np.float64, "i64": np.int64, "f32": np.float32}
+
+
+def _arr(rows, form):
+    """The sample as the caller would hold it: an ndarray of the family's dtype."""
+    a = np.array(rows, dtype=float)
+    if form == "i64" and not np.all(a == np.floor(a)):
+        raise HarnessError("HARNESS-CRASH: integer family with non-integral menu value %r" % (rows,))
+    return a.astype(_NP_DTYPE[form])
+
+
+def _exact(a):
+    """Rows of the values actually handed over (float32 / int64 -> float64 is exact)."""
+    return [[float(x) for x in r] for r in np.asarray(a).astype(np.float64).reshape(len(a), -1)]
+
+
+class _Skip(Exception):
+    """k exceeds the number of distinct pooled points: outside what the class documents."""
 
 
 def _flt(a):
@@ -68,9 +145,15 @@ class NNSPSystem(System):
 
     def step(self, cfg, state, ev, pos, ctx):
         k = cfg["k"]
-        s1, s2 = ev["s1"], ev["s2"]
-        A = np.array(s1, dtype=float)
-        B = np.array(s2, dtype=float)
+        form = cfg.get("form", "f64")
+        f1, f2 = form.split("/") if "/" in form else (form, form)
+        tol = cfg.get("knn_tol", 0)
+        A = _arr(ev["s1"], f1)
+        B = _arr(ev["s2"], f2)
+        # from here on s1 / s2 are the exact values of the arrays handed over
+        s1, s2 = _exact(A), _exact(B)
+        if k > len(M.union(s1, s2)):
+            raise _Skip()
         try:
             p = NNSpacePartitioner(k)
             p.build(A.copy(), B.copy())
@@ -120,13 +203,15 @@ class NNSPSystem(System):
             fail("nnsp-adjacency", "adjacency_matrix has shape %r, |D| = %d" % (adj.shape, n), [n, n], list(adj.shape))
         else:
             for i in range(n):
-                why = M.knn_row_defect(D, i, adj[i].tolist(), k)
+                why = M.knn_row_defect(D, i, adj[i].tolist(), k, tol)
                 if why:
                     adj_ok = False
                     fail("nnsp-adjacency", "adjacency_matrix is not the %d-NN relation of D=%r: %s" % (k, D_exp, why),
                          "k nearest points incl. itself", adj.tolist())
                     break
         tie = M.has_boundary_tie(D, k)
+        if tie and tol:
+            raise HarnessError("HARNESS-CRASH: the level-1e6 menus are meant to be free of exact ties")
         # --- nnps matrix: weight-normalised adjacency
         if adj_ok:
             P_exp = [[float(x) for x in r] for r in M.weight_normalised(adj.astype(int).tolist())]
@@ -182,6 +267,15 @@ class NNSPSystem(System):
             ctx.count("nnsp_distance_strictly_between")
         if not same_set and d_fwd == 0.0:
             ctx.count("distance_zero_for_different_sets")
+        fam = cfg.get("family")
+        if fam:
+            ctx.count("nnsp_family_%s_pairs" % fam)
+            if tie:
+                ctx.count("nnsp_family_%s_tie_builds" % fam)
+            if f1 != f2 and shared:
+                ctx.count("nnsp_points_shared_across_dtypes")
+            if n >= 6 and 2 <= k < n // 2:
+                ctx.count("nnsp_builds_with_6_points_and_k_below_half")
         return {"D": D_exp, "v1": v1_obs, "v2": v2_obs, "distance": d_fwd, "distance_swapped": d_rev}
 
 
@@ -196,19 +290,24 @@ def run_nnsp(task, seed):
     st = ctx.stats
     violations, samples = [], []
     per_sig = {}
+    menu2 = cfg.get("menu2") or menu
     pts = range(len(POINT_MENU[menu]))
+    pts2 = range(len(POINT_MENU[menu2]))
     part, nparts = task.get("part", (0, 1))
     for j1, i1 in enumerate(itertools.combinations_with_replacement(pts, task["n1"])):
         if j1 % nparts != part:
             continue
-        for i2 in itertools.combinations_with_replacement(pts, task["n2"]):
-            if k > len(set(i1) | set(i2)):
+        for i2 in itertools.combinations_with_replacement(pts2, task["n2"]):
+            if menu2 == menu and "/" not in cfg.get("form", "") and k > len(set(i1) | set(i2)):
                 st["skipped_k_exceeds_union"] += 1
                 continue
-            ev = {"s1": _rows(menu, i1, o1), "s2": _rows(menu, i2, o2)}
+            ev = {"s1": _rows(menu, i1, o1), "s2": _rows(menu2, i2, o2)}
             ctx.marks = 0
             try:
                 obs = system.step(cfg, {}, ev, 0, ctx)
+            except _Skip:
+                st["skipped_k_exceeds_union"] += 1
+                continue
             except Violation as v:
                 st["violations_raw"] += 1
                 st["violations_raw:" + v.sig] += 1
@@ -247,6 +346,10 @@ def _pts(rows):
     return [[float(x) for x in r] for r in rows]
 
 
+def _shift(rows, by):
+    return [[x + by for x in r] for r in rows]
+
+
 # Batches are tie-free for k <= 2 in every union reference U batch that can occur (checked when the
 # task list is built), have unequal sizes (4..8 rows vs. a 5/6-row reference; 1-D batch 1 has the
 # size of the reference so that drift also occurs between equal-sized batches), share
@@ -271,143 +374,522 @@ BATCH_MENU = {
         ],
     },
 }
+# ---- round 3 menus.  "-ms": batch 3 is the reference *as a set* with other multiplicities and row order.
+BATCH_MENU["1d-ms"] = {
+    "ref": BATCH_MENU["1d"]["ref"],
+    "menu": BATCH_MENU["1d"]["menu"][:3] + [_col([7, 0, 10.5, 10.5, 1, 4.5, 2.5, 0, 0])],
+}
+BATCH_MENU["2d-ms"] = {
+    "ref": BATCH_MENU["2d"]["ref"],
+    "menu": BATCH_MENU["2d"]["menu"][:3]
+    + [_pts([[3.25, 2.5], [0, 0], [0.5, 2.25], [0.5, 2.25], [1, 0.75], [2.5, 0.25], [0, 0]])],
+}
+# integral where possible (int64 / integer frames), batch 2 needs float64: mixed dtypes across one
+# history; tie-free like the "2d" menu it is derived from (doubled coordinates)
+BATCH_MENU["2d-int"] = {
+    "ref": _pts([[0, 0], [2, 1], [5, 1], [1, 5], [7, 5]]),
+    "menu": [
+        _pts([[0, 0], [2, 1], [5, 1], [1, 5], [8, 7]]),
+        _pts([[20, 20], [22, 21], [25, 20], [21, 25], [27, 25], [23, 29], [30, 23]]),
+        _pts([[1, 5], [7, 5], [20, 20], [22.5, 21.5]]),     # (22.5, 21.5) truncates to (22, 21): a point of batch 1
+        _pts([[7, 5], [0, 0], [1, 5], [1, 5], [2, 1], [5, 1], [0, 0]]),   # the reference as a set
+    ],
+}
+# integer lattice: the pooled kNN relation is never unique
+BATCH_MENU["2d-lat"] = {
+    "ref": _pts([[0, 0], [1, 0], [2, 0], [0, 1], [1, 1], [2, 1]]),
+    "menu": [
+        _pts([[1, 0], [2, 0], [3, 0], [1, 1], [2, 1], [3, 1]]),          # the lattice moved by one column
+        _pts([[10, 10], [11, 10], [10, 11], [11, 11], [12, 10]]),         # far lattice
+        _pts([[2, 1], [0, 0], [1, 1], [1, 1], [2, 0], [0, 1], [1, 0], [0, 0]]),   # the reference as a set
+        _pts([[0.5, 0], [1.5, 1], [2, 0.5], [10, 10], [11, 10.5]]),       # half-steps (float64), straddles
+    ],
+}
+# decimals that are not float32 numbers ("2d" menu / 2.5 + 0.1, roughly); as float32 batches, and in a
+# mixed history together with float64 batches that share no decimal with a float32 batch
+BATCH_MENU["2d-dec"] = {
+    "ref": _pts([[0.1, 0.1], [0.5, 0.4], [1.1, 0.2], [0.3, 1.0], [1.4, 1.1]]),
+    "menu": [
+        _pts([[0.1, 0.1], [0.5, 0.4], [1.1, 0.2], [0.3, 1.0], [1.6, 1.4]]),
+        _pts([[4.1, 4.1], [4.5, 4.4], [5.1, 4.2], [4.3, 5.0], [5.4, 5.1], [4.8, 5.9], [6.1, 4.6]]),
+        _pts([[0.3, 1.0], [1.4, 1.1], [4.1, 4.1], [4.5, 4.4]]),
+        _pts([[1.4, 1.1], [0.1, 0.1], [0.3, 1.0], [0.3, 1.0], [0.5, 0.4], [1.1, 0.2], [0.1, 0.1]]),
+    ],
+}
+BATCH_MENU["3d"] = {
+    "ref": _pts([[0, 0, 0], [1, 0.75, 0.5], [2.5, 0.25, 1.25], [0.5, 2.25, 2], [3.25, 2.5, 0.25]]),
+    "menu": [
+        _pts([[0, 0, 0], [1, 0.75, 0.5], [2.5, 0.25, 1.25], [0.5, 2.25, 2], [3.75, 3.25, 1.5]]),
+        _pts([[10, 10, 10], [11, 10.75, 10.5], [12.5, 10.25, 11.25], [10.5, 12.25, 12], [13.25, 12.5, 10.25],
+              [11.75, 14.5, 13]]),
+        # (0.5, 2.25, 0) and (0.5, 2.25, 2) differ in the third coordinate only
+        _pts([[0.5, 2.25, 2], [0.5, 2.25, 0], [10, 10, 10], [11, 10.75, 10.5]]),
+        _pts([[3.25, 2.5, 0.25], [0, 0, 0], [0.5, 2.25, 2], [0.5, 2.25, 2], [1, 0.75, 0.5], [2.5, 0.25, 1.25]]),
+    ],
+}
+# level 1e6: the "2d-dec" menu (x 2.5) on top of 1e6 -- a spread of a few units
+BATCH_MENU["2d-big"] = {
+    key: (_shift([[2.5 * x for x in r] for r in val], 1e6) if key == "ref"
+          else [_shift([[2.5 * x for x in r] for r in b], 1e6) for b in val])
+    for key, val in BATCH_MENU["2d-dec"].items()
+}
+TIE_FREE_MENUS = ("1d", "2d", "1d-ms", "2d-ms", "2d-int", "2d-dec", "3d", "2d-big")
 K_NN = (1, 2)
 SAMPLING_TIMES = (8, 30)
 ALPHAS = (0.01, 0.3, 0.6)
 NNDVI_LEN = {"quick": 3, "thorough": 5}
+
+# ---- containers / dtypes (round 3).  A form says how a batch reaches the detector.
+_DF_LABELS = ["b", "a", "c"]  # deliberately not in sorted order
+
+
+def _make(rows, form):
+    """(object handed to the detector, exact float rows of its values).
+
+    f64 / i64 / f32: ndarray of that dtype; df / dfi / df32: DataFrame of float64 / int64 / float32
+    columns; dfm: DataFrame whose first column is int64 when integral (mixed column dtypes);
+    'i?' / 'dfi?': integer-typed when every value is integral, else float64.  Frames carry
+    labels that are not in sorted order and a descending, non-contiguous index."""
+    a = np.array(rows, dtype=float)
+    if a.ndim != 2:
+        raise HarnessError("HARNESS-CRASH: batch rows must be 2-D: %r" % (rows,))
+    integral = bool(np.all(a == np.floor(a)))
+    if form.endswith("?"):
+        form = form[:-1] if integral else {"i?": "f64", "dfi?": "df"}[form]
+    if form in ("i64", "dfi"):
+        if not integral:
+            raise HarnessError("HARNESS-CRASH: integer form for non-integral batch %r" % (rows,))
+        a = a.astype(np.int64)
+    elif form in ("f32", "df32"):
+        a = a.astype(np.float32)
+    if form.startswith("df"):
+        n, d = a.shape
+        index = [5 + 2 * (n - 1 - i) for i in range(n)]
+        if form == "dfm":
+            cols = {}
+            for j in range(d):
+                c = a[:, j]
+                cols[_DF_LABELS[j]] = c.astype(np.int64) if (j == 0 and np.all(c == np.floor(c))) else c
+            obj = pd.DataFrame(cols, index=index)
+        else:
+            obj = pd.DataFrame(a, columns=_DF_LABELS[:d], index=index)
+    else:
+        obj = a
+    return obj, _exact(np.asarray(obj))
+
+
+def _form_of(cfg, which):
+    f = cfg.get("forms")
+    if f is None:
+        return "f64"
+    if isinstance(f, str):
+        return f
+    return f["ref"] if which == "ref" else f["menu"][which]
+
+
+def _decode(ev):
+    """int i -> update(menu batch i);  "s<i>" / "sr" -> set_reference(menu batch i / the initial reference)."""
+    if isinstance(ev, int):
+        return "update", ev
+    if isinstance(ev, str) and ev[:1] == "s":
+        return "set_reference", ("ref" if ev[1:] == "r" else int(ev[1:]))
+    raise HarnessError("HARNESS-CRASH: unknown NNDVI event %r" % (ev,))
+
+
+def _batch(cfg, which):
+    m = BATCH_MENU[cfg["menu"]]
+    rows = m["ref"] if which == "ref" else m["menu"][which]
+    return _make(rows, _form_of(cfg, which))
+
+
+def _new_unit(cfg, seed_id):
+    det = NNDVI(k_nn=cfg["k_nn"], sampling_times=cfg["sampling_times"], alpha=cfg["alpha"])
+    obj, rows = _batch(cfg, "ref")
+    rng.seed_step(0, seed_id, "set_reference")
+    det.set_reference(obj)
+    model = M.NNDVIModel(cfg["k_nn"], cfg["sampling_times"], cfg["alpha"])
+    model.set_reference(rows)
+    return {"det": det, "model": model, "aux": {"user_ref": False, "updates": 0}}
+
+
+def _probe(cfg, ref_before, X, seed, seed_id, pos):
+    """(threshold, adjacency) through the public partitioner and the (private) static helper, from
+    the same seed.  Sharpening only: never decides alone; None where unavailable."""
+    try:
+        part = NNSpacePartitioner(cfg["k_nn"])
+        part.build(ref_before, X)
+        adj = np.asarray(part.adjacency_matrix)
+        hint = [[int(x) for x in r] for r in adj.tolist()] if adj.ndim == 2 else None
+    except Exception:
+        return None, None
+    fn = getattr(NNDVI, "_compute_drift_threshold", None)
+    if fn is None:
+        return None, hint
+    try:
+        rng.seed_step(seed, seed_id, pos)
+        return float(fn(part.nnps_matrix, part.v1, part.v2, cfg["sampling_times"], cfg["alpha"])), hint
+    except Exception:
+        return None, hint
+
+
+def _unit_step(cfg, unit, ev, pos, ctx, seed_id, last_pos):
+    """One call on one detector + its model; all oracles; returns the observation."""
+    det = unit["det"]
+    aux = unit["aux"]
+    fam = cfg.get("family")
+    kind, which = _decode(ev)
+    obj, batch = _batch(cfg, which)
+    ref_before = np.array(det.reference_batch, dtype=float, copy=True)
+    state_before = det.drift_state
+
+    if kind == "set_reference":
+        rng.seed_step(ctx.seed, seed_id, pos)
+        try:
+            det.set_reference(obj)
+        except Exception as e:
+            raise Violation("nndvi-exception", "NNDVI.set_reference raised %s: %s at call %d"
+                            % (type(e).__name__, e, pos + 1), expected="a new reference", observed=repr(e))
+        obs = batch_obs(det)
+        obs["reference"] = np.asarray(det.reference_batch, dtype=float).tolist()
+        if obs["reference"] != batch:
+            raise Violation("nndvi-set-reference",
+                            "NNDVI %s: after set_reference (call %d, %s) reference_batch is not the batch given"
+                            % (cfg["id"], pos + 1, "right after a drift" if state_before == "drift" else "mid-history"),
+                            expected={"reference": batch}, observed=obs)
+        model = unit["model"]
+        model.set_reference(batch)
+        # lifecycle attributes after a user's set_reference are C01/C02's business, not judged here
+        model.state, model.total, model.since = obs["state"], obs["total"], obs["since"]
+        aux["user_ref"] = True
+        ctx.mark("user_set_reference_calls")
+        if aux["updates"]:
+            ctx.count("user_set_reference_mid_history")
+        if state_before == "drift":
+            ctx.count("user_set_reference_right_after_drift")
+        if fam:
+            ctx.count("nndvi_family_%s_steps" % fam)
+        return obs
+
+    rng.seed_step(ctx.seed, seed_id, pos)
+    try:
+        det.update(obj)
+    except Exception as e:
+        raise Violation("nndvi-exception", "NNDVI.update raised %s: %s at step %d" % (type(e).__name__, e, pos + 1),
+                        expected="an update", observed=repr(e))
+    obs = batch_obs(det)
+    obs["reference"] = np.asarray(det.reference_batch, dtype=float).tolist()
+    X = np.array(batch, dtype=float)
+    theta_impl, hint = _probe(cfg, ref_before, X, ctx.seed, seed_id, pos)
+    obs["theta_probe"] = theta_impl
+    follow = obs["state"] == "drift"
+    tol = cfg.get("knn_tol", 0)
+
+    def call(m, D):
+        rng.seed_step(ctx.seed, seed_id, pos)  # same draws as the real call
+        return m.step(batch, D, follow=follow, hint=hint, tol=tol)
+
+    model, exp, ok = lockstep(unit["model"], call, lambda e: not diff_keys(e, obs), stats=ctx.stats)
+    unit["model"] = model
+    info = model.last
+    if info["relations"] > 1 and cfg["menu"] in TIE_FREE_MENUS:
+        raise HarnessError("HARNESS-CRASH: NNDVI batch menu %s is not tie-free" % cfg["menu"])
+    size_cls = "unequal-sizes" if info["unequal"] else "equal-sizes"
+    if not ok or exp["reference"] != obs["reference"]:
+        bad = diff_keys(exp, obs) or ["reference"]
+        if "state" in bad:
+            sub = "nndvi-decision"
+            what = ("drift decision %r, but d = %.12g vs theta = %.12g (degenerate=%s%s) demands %r"
+                    % (obs["state"], info["d"], info["theta"], info["degenerate"],
+                       "" if info["relations"] == 1 else "; every one of the %d valid kNN relations" % info["relations"],
+                       exp["state"]))
+        elif "reference" in bad:
+            sub = "nndvi-reference"
+            what = "reference_batch is not %s" % ("the test batch after drift" if exp["state"] == "drift" else "kept")
+        else:
+            sub = "nndvi-counters"
+            what = "lifecycle counters differ on %s" % bad
+        raise Violation(sub, "NNDVI %s: %s at update %d (batch %s, %d rows vs. reference of %d rows; implementation "
+                        "threshold via helper = %r)" % (cfg["id"], what, pos + 1, ev, len(batch), len(ref_before), theta_impl),
+                        expected=dict(exp, d=info["d"], theta=info["theta"]), observed=obs,
+                        sig="%s|%s" % (sub, size_cls))
+    # sharpened: the threshold itself (private helper, same seed) -- comparable when the model worked on
+    # the relation the public partitioner produced (always, when the relation is unique)
+    if theta_impl is None or info["relation"] not in ("unique", "hint"):
+        ctx.count("theta_probe_unavailable")
+    else:
+        if info["degenerate"]:
+            th_ok = math.isnan(theta_impl) or abs(theta_impl - info["c"]) <= 1e-9
+        else:
+            th_ok = close(theta_impl, info["theta"])
+        if not th_ok:
+            raise Violation("nndvi-threshold",
+                            "NNDVI %s: threshold %r is not norm.ppf(1-alpha; mean, population std) = %r of the %d "
+                            "same-seed permutation distances at update %d" % (cfg["id"], theta_impl, info["theta"],
+                                                                             cfg["sampling_times"], pos + 1),
+                            expected=info["theta"], observed=theta_impl, sig="nndvi-threshold|" + size_cls)
+        ctx.count("theta_probe_compared")
+
+    aux["updates"] += 1
+    if obs["state"] == "drift":
+        ctx.mark("drift_decisions")
+        ctx.count("reference_replaced")
+        ctx.count("drift_on_unequal_sizes" if info["unequal"] else "drift_on_equal_sizes")
+        if aux["user_ref"]:
+            ctx.count("drifts_against_a_user_set_reference")
+    else:
+        ctx.count("no_drift_decisions")
+        ctx.count("reference_kept")
+        if not info["degenerate"]:
+            ctx.count("no_drift_with_finite_threshold")
+    if aux["user_ref"]:
+        ctx.count("updates_against_a_user_set_reference")
+    if info["degenerate"]:
+        ctx.count("nan_threshold_steps")
+    if info["ambiguous"]:
+        ctx.count("degenerate_threshold_followed_impl")
+    if info["unequal"]:
+        ctx.count("unequal_size_updates")
+    if info["shared"]:
+        ctx.count("updates_sharing_points_with_reference")
+    if info["same_set"]:
+        ctx.count("updates_equal_to_reference_as_a_set")
+        if batch != ref_before.tolist():
+            ctx.count("updates_equal_to_reference_as_a_set_other_rows")
+    if info["relations"] > 1:
+        ctx.count("updates_with_non_unique_knn_relation")
+        ctx.count("knn_relation_" + info["relation"])
+    if not math.isnan(info["theta"]) and math.isinf(info["theta"]):
+        ctx.count("infinite_threshold_steps")
+    if not info["degenerate"] and info["theta"] > 0 and 0.5 <= info["d"] / info["theta"] <= 2:
+        ctx.count("decisions_within_factor2_of_threshold")
+    if fam:
+        ctx.count("nndvi_family_%s_steps" % fam)
+        if obs["state"] == "drift":
+            ctx.count("nndvi_family_%s_drifts" % fam)
+        elif not info["degenerate"]:
+            ctx.count("nndvi_family_%s_no_drift_finite_threshold" % fam)
+    form = _form_of(cfg, which)
+    if form != "f64":
+        ctx.count("updates_in_form_" + form.replace("?", "-if-integral"))
+    if pos == last_pos:
+        if model.drifts >= 2:
+            ctx.count("histories_with_2plus_drifts")
+        if model.drifts >= 3:
+            ctx.count("histories_with_3plus_drifts")
+    if obs["state"] == "drift" and model.drifts >= 2 and obs["since"] == 1:
+        ctx.count("back_to_back_drifts")
+    return obs
 
 
 class NNDVISystem(System):
     name = "NNDVI"
 
     def init(self, cfg):
-        m = BATCH_MENU[cfg["menu"]]
-        det = NNDVI(k_nn=cfg["k_nn"], sampling_times=cfg["sampling_times"], alpha=cfg["alpha"])
-        rng.seed_step(0, cfg["id"], "set_reference")
-        det.set_reference(np.array(m["ref"], dtype=float))
-        model = M.NNDVIModel(cfg["k_nn"], cfg["sampling_times"], cfg["alpha"])
-        model.set_reference(m["ref"])
-        return {"det": det, "model": model}
+        return _new_unit(cfg, cfg["id"])
 
     def alphabet(self, cfg, state, pos):
-        return [0, 1, 2, 3]
-
-    def _probe_threshold(self, cfg, ref_before, X, seed, pos):
-        """The threshold is a local of update(); to sharpen the check it is recomputed through the
-        (private) static helper, if that still exists, from the same seed.  Never decides alone
-        whether the helper is missing or has another signature."""
-        fn = getattr(NNDVI, "_compute_drift_threshold", None)
-        if fn is None:
-            return None
-        try:
-            part = NNSpacePartitioner(cfg["k_nn"])
-            part.build(ref_before, X)
-            rng.seed_step(seed, cfg["id"], pos)
-            return float(fn(part.nnps_matrix, part.v1, part.v2, cfg["sampling_times"], cfg["alpha"]))
-        except Exception:
-            return None
+        return list(cfg.get("events", [0, 1, 2, 3]))
 
     def step(self, cfg, state, ev, pos, ctx):
-        det = state["det"]
-        batch = BATCH_MENU[cfg["menu"]]["menu"][ev]
-        X = np.array(batch, dtype=float)
-        ref_before = np.array(det.reference_batch, dtype=float, copy=True)
-        rng.seed_step(ctx.seed, cfg["id"], pos)
-        try:
-            det.update(X.copy())
-        except Exception as e:
-            raise Violation("nndvi-exception", "NNDVI.update raised %s: %s at step %d" % (type(e).__name__, e, pos + 1),
-                            expected="an update", observed=repr(e))
-        obs = batch_obs(det)
-        obs["reference"] = np.asarray(det.reference_batch, dtype=float).tolist()
-        theta_impl = self._probe_threshold(cfg, ref_before, X, ctx.seed, pos)
-        obs["theta_probe"] = theta_impl
-        follow = obs["state"] == "drift"
+        return _unit_step(cfg, state, ev, pos, ctx, cfg["id"], cfg["len"] - 1)
 
-        def call(m, D):
-            rng.seed_step(ctx.seed, cfg["id"], pos)  # same draws as the real call
-            try:
-                return m.step(batch, D, follow=follow)
-            except M.KnnTie as e:
-                raise HarnessError("HARNESS-CRASH: NNDVI batch menu is not tie-free: %s" % e)
 
-        model, exp, ok = lockstep(state["model"], call, lambda e: not diff_keys(e, obs), stats=ctx.stats)
-        state["model"] = model
-        info = model.last
-        size_cls = "unequal-sizes" if info["unequal"] else "equal-sizes"
-        if not ok or exp["reference"] != obs["reference"]:
-            bad = diff_keys(exp, obs) or ["reference"]
-            if "state" in bad:
-                sub = "nndvi-decision"
-                what = ("drift decision %r, but d = %.12g vs theta = %.12g (degenerate=%s) demands %r"
-                        % (obs["state"], info["d"], info["theta"], info["degenerate"], exp["state"]))
-            elif "reference" in bad:
-                sub = "nndvi-reference"
-                what = "reference_batch is not %s" % ("the test batch after drift" if exp["state"] == "drift" else "kept")
-            else:
-                sub = "nndvi-counters"
-                what = "lifecycle counters differ on %s" % bad
-            raise Violation(sub, "NNDVI %s: %s at update %d (batch %d, %d rows vs. reference of %d rows; implementation "
-                            "threshold via helper = %r)" % (cfg["id"], what, pos + 1, ev, len(batch), len(ref_before), theta_impl),
-                            expected=dict(exp, d=info["d"], theta=info["theta"]), observed=obs,
-                            sig="%s|%s" % (sub, size_cls))
-        # sharpened: the threshold itself (private helper, same seed)
-        if theta_impl is None:
-            ctx.count("theta_probe_unavailable")
-        else:
-            if info["degenerate"]:
-                th_ok = math.isnan(theta_impl) or abs(theta_impl - info["c"]) <= 1e-9
-            else:
-                th_ok = close(theta_impl, info["theta"])
-            if not th_ok:
-                raise Violation("nndvi-threshold",
-                                "NNDVI %s: threshold %r is not norm.ppf(1-alpha; mean, population std) = %r of the %d "
-                                "same-seed permutation distances at update %d" % (cfg["id"], theta_impl, info["theta"],
-                                                                                 cfg["sampling_times"], pos + 1),
-                                expected=info["theta"], observed=theta_impl, sig="nndvi-threshold|" + size_cls)
-            ctx.count("theta_probe_compared")
+class NNDVIMultiSystem(System):
+    """Several NNDVI objects in one process, advanced in an arbitrary interleaving: an event is
+    [detector index, event]; every detector is judged against its own model, so any state shared
+    between instances (class attributes, module-level caches) shows as a disagreement."""
 
-        if obs["state"] == "drift":
-            ctx.mark("drift_decisions")
-            ctx.count("reference_replaced")
-            ctx.count("drift_on_unequal_sizes" if info["unequal"] else "drift_on_equal_sizes")
-        else:
-            ctx.count("no_drift_decisions")
-            ctx.count("reference_kept")
-            if not info["degenerate"]:
-                ctx.count("no_drift_with_finite_threshold")
-        if info["degenerate"]:
-            ctx.count("nan_threshold_steps")
-        if info["ambiguous"]:
-            ctx.count("degenerate_threshold_followed_impl")
-        if info["unequal"]:
-            ctx.count("unequal_size_updates")
-        if info["shared"]:
-            ctx.count("updates_sharing_points_with_reference")
-        if not info["degenerate"] and info["theta"] > 0 and 0.5 <= info["d"] / info["theta"] <= 2:
-            ctx.count("decisions_within_factor2_of_threshold")
-        if pos + 1 == cfg["len"]:
-            if model.drifts >= 2:
-                ctx.count("histories_with_2plus_drifts")
-            if model.drifts >= 3:
-                ctx.count("histories_with_3plus_drifts")
-        if obs["state"] == "drift" and model.drifts >= 2 and obs["since"] == 1:
-            ctx.count("back_to_back_drifts")
+    name = "NNDVIx"
+
+    def init(self, cfg):
+        return {"units": [_new_unit(u, "%s#%d" % (cfg["id"], j)) for j, u in enumerate(cfg["units"])]}
+
+    def alphabet(self, cfg, state, pos):
+        return [[j, e] for j, u in enumerate(cfg["units"]) for e in u.get("events", [0, 1, 2, 3])]
+
+    def step(self, cfg, state, ev, pos, ctx):
+        j, e = ev
+        ucfg = cfg["units"][j]
+        obs = _unit_step(ucfg, state["units"][j], e, pos, ctx, "%s#%d" % (cfg["id"], j), cfg["len"] - 1)
+        ctx.count("interleaved_calls")
+        if pos > 0 and state.get("last") is not None and state["last"] != j:
+            ctx.count("interleaved_switches_between_detectors")
+        state["last"] = j
+        obs = dict(obs, detector=j)
+        # the detectors that were not called must not have moved
+        for i, u in enumerate(state["units"]):
+            if i == j:
+                continue
+            o = batch_obs(u["det"])
+            m = u["model"]
+            ref = np.asarray(u["det"].reference_batch, dtype=float).tolist()
+            if (o["state"], o["total"], o["since"]) != (m.state, m.total, m.since) or ref != [
+                [float(x) for x in r] for r in m.ref
+            ]:
+                raise Violation("nndvi-interleaved",
+                                "NNDVIx %s: a call on detector %d changed detector %d" % (cfg["id"], j, i),
+                                expected={"state": m.state, "total": m.total, "since": m.since},
+                                observed=dict(o, reference=ref))
         return obs
 
 
-SYSTEMS = {"NNSP": NNSPSystem(), "NNDVI": NNDVISystem()}
+SYSTEMS = {"NNSP": NNSPSystem(), "NNDVI": NNDVISystem(), "NNDVIx": NNDVIMultiSystem()}
 
 
 # ======================================================================= tasks / evidence
 def _check_menus():
-    for name, m in BATCH_MENU.items():
+    for name in TIE_FREE_MENUS:
+        m = BATCH_MENU[name]
+        big = name.endswith("-big")
         allb = [m["ref"]] + m["menu"]
         for a in allb:
             for b in allb:
+                U = M.union(a, b)
                 for k in K_NN:
-                    if M.has_boundary_tie(M.union(a, b), k):
+                    if M.count_relations(U, k, BIG_TOL * 10 if big else 0) != 1:
                         raise HarnessError("HARNESS-CRASH: batch menu %s has a kNN boundary tie (k=%d)" % (name, k))
+    for name in ("2d-big", "1d-big"):
+        P = M.points(POINT_MENU[name])
+        for i, p in enumerate(P):
+            ds = sorted(float(M.sqdist(p, q)) for j, q in enumerate(P) if j != i)
+            if min(b - a for a, b in zip(ds, ds[1:])) <= 10 * BIG_TOL:
+                raise HarnessError("HARNESS-CRASH: point menu %s: competing squared distances closer than 10 x tolerance" % name)
+
+
+def _nndvi_tasks(cid, cfg, L, split=1, cost=0, family=None):
+    """DFS over all sequences of length L, one task per choice of the first ``split`` events."""
+    cfg = dict(cfg, id=cid, len=L)
+    if family:
+        cfg["family"] = family
+    evs = cfg.get("events", [0, 1, 2, 3])
+    out = []
+    for first in itertools.product(evs, repeat=split):
+        out.append({
+            "system": "NNDVI", "cfg": cfg,
+            "prefix": list(first), "depth": L - split,
+            "label": "NNDVI|%s%s|%s" % ((family + "|") if family else "", cid, ",".join(map(str, first)) or "all"),
+            "cost": 10 ** 6 + len(evs) ** (L - split) * (cfg["sampling_times"] + 10) // 3 + cost,
+            "validate_every": 17,
+        })
+    return out
+
+
+def _family_tasks(tier):
+    """Round-3 families (additional tasks; nothing above is changed by them)."""
+    out = []
+    q = tier == "quick"
+    # ---------------------------------------------------------------- NNSP value families
+    for menu, menu2, form, sizes, ks, tol, fam in NNSP_FAMILIES:
+        for k in ks:
+            for n1 in sizes:
+                for n2 in sizes:
+                    cfg = {"id": "%s:%s|k%d" % (menu, form, k), "menu": menu, "k": k, "form": form, "family": fam}
+                    if menu2:
+                        cfg["menu2"] = menu2
+                    if tol:
+                        cfg["knn_tol"] = tol
+                    npts = len(POINT_MENU[menu])
+                    for order in ROW_ORDERS[tier]:
+                        o = ("asc", "asc") if order == "asc" else ("desc", "asc")
+                        out.append({
+                            "fn": "run_nnsp", "system": "NNSP", "cfg": cfg,
+                            "n1": n1, "n2": n2, "orders": list(o), "part": [0, 1],
+                            "label": "NNSP|%s|%s:%s|k%d|%s|%dx%d" % (fam, menu, form, k, order, n1, n2),
+                            "cost": math.comb(npts - 1 + n1, n1) * math.comb(npts - 1 + n2, n2) * 3,
+                        })
+    # ---------------------------------------------------------------- NNDVI families
+    L = 3 if q else 4
+
+    def cfgs(menu, ks, ss, alphas, forms=None, tol=0, events=None):
+        for k in ks:
+            for s_ in ss:
+                for a in alphas:
+                    c = {"menu": menu, "k_nn": k, "sampling_times": s_, "alpha": a}
+                    if forms is not None:
+                        c["forms"] = forms
+                    if tol:
+                        c["knn_tol"] = tol
+                    if events:
+                        c["events"] = events
+                    yield "%s|k%d|s%d|a%g" % (menu, k, s_, a), c
+
+    # integer-typed batches; ndarray and integer frames; float64 where a value is not integral
+    int_forms = {
+        "int": "i?",
+        "int-frames": "dfi?",
+        "int-mixed": {"ref": "i64", "menu": ["dfi", "i64", "f64", "dfm"]},
+    }
+    for tag, forms in int_forms.items():
+        for cid, c in cfgs("2d-int", (1, 2), (8,), (0.3, 0.01) if tag == "int" else (0.3,), forms):
+            out += _nndvi_tasks(tag + ":" + cid, c, L, family="int")
+    # lattice batches: non-unique kNN relation at every update
+    for tag, forms in (("lat", "i?"), ("lat-frames", {"ref": "dfi", "menu": ["i64", "dfi", "i64", "df"]})):
+        for cid, c in cfgs("2d-lat", (2, 3), (8,), (0.3, 0.01) if tag == "lat" else (0.3,), forms):
+            out += _nndvi_tasks(tag + ":" + cid, c, L, family="lattice")
+    # float32 batches, alone and mixed with float64 batches / frames across the history
+    f32_forms = {
+        "f32": "f32",
+        "f32-mixed": {"ref": "f32", "menu": ["df32", "f64", "f32", "df"]},
+    }
+    for tag, forms in f32_forms.items():
+        for cid, c in cfgs("2d-dec", (1, 2), (8,), (0.3,), forms):
+            out += _nndvi_tasks(tag + ":" + cid, c, L, family="float32")
+    # DataFrame batches (labels not sorted, non-default index), containers mixed across the history
+    df_forms = {
+        "df": "df",
+        "df-after-array": {"ref": "f64", "menu": ["df", "df", "f64", "df"]},
+        "array-after-df": {"ref": "df", "menu": ["f64", "df", "f64", "f64"]},
+    }
+    for tag, forms in df_forms.items():
+        for menu in ("1d-ms", "2d-ms"):
+            for cid, c in cfgs(menu, (2,) if menu == "1d-ms" else (1, 2), (8,), (0.3,), forms):
+                out += _nndvi_tasks(tag + ":" + cid, c, L, family="dataframe")
+    # 3-D
+    for cid, c in cfgs("3d", (1, 2), (8,), (0.3, 0.01)):
+        out += _nndvi_tasks(cid, c, L, family="3d")
+    # level 1e6
+    for tag, forms in (("big", None), ("big-frames", "df")):
+        for cid, c in cfgs("2d-big", (1, 2), (8,), (0.3,), forms, tol=BIG_TOL):
+            out += _nndvi_tasks(tag + ":" + cid, c, L, family="level1e6")
+    # degenerate fits: 1-3 re-assignments
+    for menu in ("1d-ms", "2d-ms"):
+        for cid, c in cfgs(menu, (1, 2), (1, 2, 3), (0.3,)):
+            out += _nndvi_tasks(cid, c, L, split=0, family="sampling-1-3")
+    # alpha close to its ends (0 and 1 themselves: see describe())
+    for menu in ("1d-ms", "2d-ms"):
+        for cid, c in cfgs(menu, (2,), (8,), (1e-6, 0.999)):
+            out += _nndvi_tasks(cid, c, L, family="alpha-extreme")
+    # set_reference by the user mid-history and right after a drift
+    ev_sr = [0, 1, 3, "s1", "s3", "sr"]
+    for menu, k, s_, a in (("2d-ms", 2, 8, 0.3), ("1d-ms", 1, 8, 0.6), ("2d-int", 2, 8, 0.3)):
+        forms = "i?" if menu == "2d-int" else None
+        for cid, c in cfgs(menu, (k,), (s_,), (a,), forms, events=ev_sr):
+            out += _nndvi_tasks("setref:" + cid, c, L + 1, split=2, family="user-set-reference")
+    # several detectors interleaved
+    units = [
+        {"id": "u0", "menu": "1d-ms", "k_nn": 1, "sampling_times": 8, "alpha": 0.3},
+        {"id": "u1", "menu": "2d-ms", "k_nn": 2, "sampling_times": 8, "alpha": 0.3, "forms": "df"},
+        {"id": "u2", "menu": "2d-ms", "k_nn": 2, "sampling_times": 30, "alpha": 0.01, "events": [0, 1, 2, "s1"]},
+    ]
+    if q:
+        # 2 detectors, 3 batches each, every interleaving of 4 calls; 2 detectors on one menu
+        # (one of them with user set_reference calls), every interleaving of 3 calls
+        plans = [("2det", [dict(units[0], events=[0, 1, 3]), dict(units[1], events=[0, 1, 3])], 4),
+                 ("2det-same-menu", units[1:], 3)]
+    else:
+        plans = [("2det", units[:2], 5), ("3det", units, 4)]
+    for name, us, Lx in plans:
+        us = [dict(u, family="interleaved") for u in us]
+        cfg = {"id": name, "units": us, "len": Lx}
+        alpha = [[j, e] for j, u in enumerate(us) for e in u.get("events", [0, 1, 2, 3])]
+        for first in alpha:
+            out.append({
+                "system": "NNDVIx", "cfg": cfg, "prefix": [first], "depth": Lx - 1,
+                "label": "NNDVIx|interleaved|%s|%s" % (name, first),
+                "cost": 10 ** 6 + len(alpha) ** (Lx - 1) * 6,
+                "validate_every": 17,
+            })
+    return out
 
 
 def tasks(tier, seed):
@@ -444,6 +926,7 @@ def tasks(tier, seed):
                             "cost": 10 ** 6 + 4 ** (L - 1) * (s + 10) // 3,
                             "validate_every": 17,
                         })
+    out += _family_tasks(tier)
     return out
 
 
